@@ -2,7 +2,7 @@ SPECIFICATION Spec
 CONSTANTS
     Machine = "xfer"
     CIDS = {"c1","c2"}
-    VALS = {"vA","vB"}
+    VALS = {"vA"}
     MAXIDX = 4
     KEEPS = {1,2,3}
     MAXOPS = 5
@@ -12,9 +12,9 @@ CONSTANTS
     PRIOS <- PriosFull
     JUNK = {"garbage","empty","badma","nop2p"}
     MAXJUNK = 1
-    MAXIMPORTS = 2
+    MAXIMPORTS = 1
     FAULTS = {0,1,2}
-    MarshalStopsOnError = TRUE
+    MarshalStopsOnError = FALSE
     TruncInLock = TRUE
     MAXLOADS = 2
     REKEEP = FALSE
@@ -22,8 +22,4 @@ CONSTANTS
     ImportCleans = TRUE
     UnmarshalMode = "replace"
     LoadSkipsBad = TRUE
-INVARIANT ExportLaw
-INVARIANT ImportLaw
-INVARIANT SerialLawFresh
-INVARIANT SerialLawAny
 INVARIANT MarshalLaw
